@@ -681,6 +681,8 @@ class ReadDTCInformation(BaseService):
                     snapshot.record_number = record_number
 
                     # As standard does not specify the length of the DID, we craft it based on a config
+                    if len(remaining_data) < dtc_snapshot_did_size:
+                        raise InvalidResponseException(response, 'Incomplete response from server. Missing DID number and associated data.')
                     did = 0
                     for j in range(dtc_snapshot_did_size):
                         offset = dtc_snapshot_did_size - 1 - j
@@ -765,6 +767,8 @@ class ReadDTCInformation(BaseService):
                     snapshot.record_number = record_number
 
                     # As standard does not specify the length of the DID, we craft it based on a config
+                    if len(remaining_data) < dtc_snapshot_did_size:
+                        raise InvalidResponseException(response, 'Incomplete response from server. Missing DID number and associated data.')
                     did = 0
                     for j in range(dtc_snapshot_did_size):
                         offset = dtc_snapshot_did_size - 1 - j
